@@ -3,6 +3,7 @@
 A program is a list of ops over host handles (numbered in creation order):
   ["new"] ["g1",h] ["g2",h1,h2] ["mi",h] ["md",h] ["free",h]
   ["keep",n,recv] ["ctx",n,recv] ["flush"]
+  ["seq",n,recv]   keep with sequential=True and a post routine that measures (finding witnesses only)
 A configuration is (max_q, nv_hw, transp).
 
 Session runs the ops one by one through sdk_pipeline.Pipeline (real Qubit /
@@ -202,6 +203,15 @@ class Session:
                 self._responses(n, recv)
                 qs = self.sock.recv_keep(number=n) if recv else self.sock.create_keep(number=n)
                 self.handles += list(qs)
+            elif k == "seq":
+                n, recv = op[1], op[2]
+                self._responses(n, recv)
+
+                def post(_builder, q, _pair):
+                    q.measure()
+
+                f = self.sock.recv_keep if recv else self.sock.create_keep
+                self.handles += list(f(number=n, sequential=True, post_routine=post))
             elif k == "ctx":
                 n, recv = op[1], op[2]
                 self._responses(n, recv)
@@ -280,6 +290,8 @@ def class_key(cfg, s, op):
             return "C09:nv-transpiler-carbon-gate-borrows-unallocated-electron"
     if op[0] == "ctx" and cfg.nv and op[1] >= 2:
         return "C09:nv-epr-context-preallocates-pair-ids"
+    if op[0] == "seq":
+        return "C09:sequential-keep-handles-stay-active"
     return None
 
 
@@ -393,6 +405,8 @@ def coq_op(op):
         return f"EprKeep {op[1]} {str(bool(op[2])).lower()}"
     if k == "ctx":
         return f"EprContext {op[1]} {str(bool(op[2])).lower()}"
+    if k == "seq":
+        return f"EprKeepSeq {op[1]} {str(bool(op[2])).lower()}"
     raise KeyError(k)
 
 
